@@ -74,11 +74,14 @@ LHS_KINDS = frozenset(['Identifier', 'This', 'Number', 'String', 'Regex', 'Boole
 
 
 class RefSyntaxError(Exception):
-    def __init__(self, kind, pos, msg=''):
+    def __init__(self, kind, pos, msg='', uncertain=False):
         Exception.__init__(self, '%s at %d %s' % (kind, pos, msg))
         self.kind = kind
         self.pos = pos
         self.msg = msg
+        # the specification can be read either way on this input: callers
+        # count it oracle_uncertain and never base a verdict on it
+        self.uncertain = uncertain
 
 
 class LineTable(object):
@@ -913,6 +916,11 @@ class Parser(object):
         t = self.tok
         if t.kind == 'punct' and t.value in ASSIGN_OPS:
             if left.kind not in LHS_KINDS:
+                if t.value == '/=' and t.nl_before:
+                    # '/=' after a non-assignable expression and a line break: read literally, 7.9.1
+                    # makes '/=' an offending token (insert ';', then re-read as a regex); engines
+                    # report an invalid assignment target instead.
+                    raise RefSyntaxError('divassign_after_newline', t.start, uncertain=True)
                 self.error('assignment_to_non_left_hand_side')
             self.advance()
             op = self.last_index()
